@@ -55,7 +55,8 @@ func VerifJSNumberMember(n int) {
 		c := lit[i]
 		vAssume(vB2I('0' <= c && c <= '9')+vB2I(c == '.')+vB2I(c == 'e')+vB2I(c == 'n')+vB2I(c == '-') != 0)
 	}
-	in := append(append([]byte("x=("), lit...), ").p"...)
+	form := [][2]string{{"x=(", ").p"}, {"x=", "[\"p\"]"}, {"x=(", ")[\"toString\"]()"}, {"x=", " .p"}}[vChoice("form", 4)]
+	in := append(append([]byte(form[0]), lit...), form[1]...)
 	w := &vWriter{}
 	err := (&Minifier{}).Minify(nil, w, &vReader{b: in}, nil)
 	vAssume(err == nil) // the literal is a valid numeric literal
